@@ -278,7 +278,7 @@ def handle (op : String) (args res : List String) : Option Verdict :=
   | "nn_search" => some (handleSearch args res)
   | "nn_load" => some (handleLoad args res)
   | "nn_bin" => some (handleBin res)
-  | "nn_bulk" | "nn_geo" | "nn_loadraw" | "nn_loaddag" => some (.skip "brute-force / robustness oracle in the harness")
+  | "nn_bulk" | "nn_geo" | "nn_loadraw" | "nn_loaddag" | "nn_loadtrunc" => some (.skip "brute-force / robustness oracle in the harness")
   | _ =>
     if op.startsWith "ixm_" then handleIxm op args res
     else if op.startsWith "ix_" then some (.skip "Intersect: oracles in the harness (no model of the tiling search)")
